@@ -7,23 +7,23 @@ BUILT = os.environ.get("BUILT", "").split()
 CHECKS = {
  "C03": dict(engine="E1", cat="exploration", ref="DESIGN.md 5/C03",
    technique="stateful property testing: proptest-generated operation histories over a pool of live values, drop-registry invariant + value model after every step, shrinking",
-   text="400k generated histories (quick) of up to 40 chained ownership-moving operations (44 kinds, incl. zips with plain no-drop-glue arrays and collects that must fail) over arrays of length 0..=12, iterators, Box/Vec/Box<[T]> and loose elements, with identity-carrying drop-tracked (heap payload), zero-sized tracked and plain elements, nth/nth_back arguments up to usize::MAX; every step is checked against a value model and the drop registry; run in two build profiles (with and without debug assertions / overflow checks). Held-on-explored.",
+   text="400k generated histories (quick) of up to 40 chained ownership-moving operations (44 kinds, incl. zips with plain no-drop-glue arrays and collects that must fail) over arrays of length 0..=12, iterators, Box/Vec/Box<[T]> and loose elements, with identity-carrying drop-tracked (heap payload), zero-sized tracked and plain elements, nth/nth_back arguments up to usize::MAX, clone_from between arrays / iterators of the same shape; every step is checked against a value model and the drop registry; run in two build profiles (with and without debug assertions / overflow checks). Held-on-explored.",
    note="Panic-free histories only; lengths above 12 are covered per operation by C06/C09/C11; trusts the harness registry."),
  "C04": dict(engine="E1", cat="fault_enumeration", ref="DESIGN.md 5/C04",
    technique="fault injection enumerated over crash points: a panic injected at every call index of every closure / Clone / Default / source next() of each operation instance, oracle = drop registry",
-   text="For ~3k operation instances (operation x receiver form x N x element kinds) the K caller-code invocations are counted and the instance re-run with a panic at every k < K (sampled for K > 80); the panic must propagate and every element ever created must be dropped exactly once.",
+   text="For ~5k operation instances (operation x receiver form x N x element kinds; zips with (lhs, rhs, output) kind triples; clone_from for arrays, boxed arrays and iterators in several positions), in two build profiles, the K caller-code invocations are counted and the instance re-run with a panic at every k < K (sampled for K > 80); the panic must propagate and every element ever created must be dropped exactly once.",
    note="Single fault per run, never during unwinding; N <= 1024; element kinds limited to the compiled set."),
  "C05": dict(engine="E1", cat="fault_enumeration", ref="DESIGN.md 5/C05",
    technique="fault injection enumerated over (operation, iterator position, argument, panicking element): a destructor that panics once, oracle = per-element drop count and observation-after-drop registry; the iterator is used again after the caught panic",
-   text="Complete enumeration for N <= 8 of every dropping operation from every iterator position with every argument and every choice of the one element whose destructor panics (24-byte, 96-byte and zero-sized tracked elements), plus 300k sampled cases up to N = 4096. No element may be dropped twice or observed after its drop; leaks are allowed.",
+   text="Complete enumeration for N <= 8 of every dropping operation (incl. clone_from into a non-empty destination) from every iterator position with every argument and every choice of the one element whose destructor panics (24-byte, 96-byte and zero-sized tracked elements), plus 300k sampled cases up to N = 4096. No element may be dropped twice or observed after its drop; leaks are allowed.",
    note="Single panicking destructor per run; a second panic during unwinding aborts by language rule and is out of scope."),
  "C06": dict(engine="E1", cat="exploration", ref="DESIGN.md 5/C06",
    technique="model-based property testing: exhaustive small-N operation grid + proptest operation sequences against a VecDeque reference model, with shrinking",
-   text="Every iterator operation with every argument from every reachable (front, back) position for N<=8 is enumerated, plus 400k generated operation sequences up to N=4096 over five element kinds (incl. zero-sized with and without a destructor), in two build profiles, each compared call by call with a VecDeque model and with drop accounting of identity-carrying elements. Held-on-explored, not a proof.",
+   text="Every iterator operation with every argument from every reachable (front, back) position for N<=8 is enumerated (incl. clone_from in both directions against a second iterator in every position, and T::clone call counts for an element kind without drop glue), plus 400k generated operation sequences up to N=4096 over five element kinds (incl. zero-sized with and without a destructor), in two build profiles, each compared call by call with a VecDeque model and with drop accounting of identity-carrying elements. Held-on-explored, not a proof.",
    note="Trusts VecDeque as the queue reference and the harness' drop registry; lengths outside the compiled lattice are not exercised."),
  "C07": dict(engine="E1", cat="exploration", ref="DESIGN.md 5/C07",
    technique="property testing with a scripted source: complete grid over (N, produced count, size_hint behaviour, fusedness, target, by-value/&mut) plus proptest-random cases; oracle computed from the script",
-   text="~170k cases per build profile (with and without debug assertions): every produced count around N for 36 lengths, 24-byte and zero-sized drop-tracked elements, sixteen size_hint behaviours including lying, inconsistent (lower > upper) and counting-down ones, fused and non-fused sources, four collect targets, std TrustedLen sources, and a panic injected into every next() call for N<=12. Checks Ok iff exactly N, order, at most N+1 pulls, never polled after None, pulled items dropped exactly once.",
+   text="~170k cases per build profile (with and without debug assertions): every produced count around N for 36 lengths, 24-byte and zero-sized drop-tracked elements, eighteen size_hint behaviours including lying, inconsistent (lower > upper) and counting-down ones, fused and non-fused sources, four collect targets, std TrustedLen sources, and a panic injected into every next() call for N<=12. Checks Ok iff exactly N, order, at most N+1 pulls, never polled after None, pulled items dropped exactly once.",
    note="Exact poll counts are not asserted; only the lattice lengths are instantiated."),
 }
 
@@ -34,11 +34,11 @@ CHECKS.update({
    note="Facts are those of this rustc on x86_64; the random part is a sample of the type/length space."),
  "C02": dict(engine="E1", cat="exploration", ref="DESIGN.md 5/C02",
    technique="property testing over a complete grid (lattice length x view x source length class x form) with seeded values; oracle = pointer identity, length, write-through and Ok/Err/panic as a function of (L, N)",
-   text="63k cases per build profile (with and without debug assertions): 14 shared/mutable views checked for address, length and order with a write through each mutable view read back through all others; six reinterpretation forms against slices with L<N, L=N, L>N for 36 lengths up to 4096 and 7 element kinds (incl. zero-sized, drop-tracked, 72-byte and 32-byte-aligned); by-value array and all 12 tuple arities.",
+   text="63k cases per build profile (with and without debug assertions): 14 shared/mutable views checked for address, length and order with a write through each mutable view read back through all others; six reinterpretation forms against slices with L<N, L=N, L>N for 36 lengths up to 4096 and 7 element kinds (incl. zero-sized, drop-tracked, 72-byte and 32-byte-aligned); by-value array and all 12 tuple arities; a compile-time half (accept/reject twins: the conversions to and from [T; K] and tuples exist only for K = N) and a Miri replay of 150 directed cases (every view / conversion form).",
    note="A wrongly accepted reference is never dereferenced, only its address is inspected."),
  "C08": dict(engine="E1", cat="exploration", ref="DESIGN.md 5/C08",
    technique="property testing with a stateful, non-commutative recording closure over a complete grid of (operation form, length, element kind) with seeded values; oracle = exact call log + slice reference computation",
-   text="86k cases per build profile over 40 operation forms (generate x4, map x4, zip x10, fold x4, Clone x2, Default x2, map x4 / zip x10 into a zero-sized () output) x 16 lengths (34 for u32, incl. non-multiples of every power-of-two block size) x 6 element kinds selecting every needs_drop / zero-size branch (incl. types without drop glue whose Clone/Default are observable), each compared with the expected call log 0..N-1 and with the same computation on slices.",
+   text="86k cases per build profile over 40 operation forms (generate x4, map x4, zip x10, fold x4, Clone x2, clone_from x2, Default x2, map x4 / zip x10 into a zero-sized () output) x 16 lengths (34 for u32, incl. non-multiples of every power-of-two block size) x 6 element kinds selecting every needs_drop / zero-size branch (incl. types without drop glue whose Clone/Default are observable), each compared with the expected call log 0..N-1 and with the same computation on slices.",
    note="Only the listed lengths are instantiated."),
  "C09": dict(engine="E1", cat="exploration", ref="DESIGN.md 5/C09",
    technique="differential property testing against Vec over an exhaustive type-level grid of (N,K)/(N,M)/index instances with seeded values, plus pointer-offset oracle for by-reference split",
@@ -46,7 +46,7 @@ CHECKS.update({
    note="A discarded one-past read is invisible natively (thorough tier: Miri/ASan)."),
  "C10": dict(engine="E1+E2", cat="exploration", ref="DESIGN.md 5/C10",
    technique="property testing over a complete (N, L) grid with std chunks_exact as reference (addresses, counts, write-through), plus generated const items evaluated by the compiler's const evaluator",
-   text="20k run-time cases per build profile (every L in 0..=4N+3 for 15 N up to 64, boundary L to 4096, seven element kinds, shared and mutable, N = 0 with native-array chunk views) compared with chunks_exact/remainder by address and content, inverse and native-chunk views; plus ~2k const items over the same grid where an out-of-bounds slice is a hard compiler error.",
+   text="20k run-time cases per build profile (every L in 0..=4N+3 for 15 N up to 64, boundary L to 4096, seven element kinds, shared and mutable, N = 0 with native-array chunk views) compared with chunks_exact/remainder by address and content, inverse and native-chunk views; plus ~2k const items over the same grid where an out-of-bounds slice is a hard compiler error (compiled against the dev- and the release-profile crate), plus accept/reject twins showing from_chunks / into_chunks (+_mut) only type-check for K = N.",
    note="Only addresses and lengths are inspected before results are known to be in bounds."),
  "C11": dict(engine="E1", cat="exploration", ref="DESIGN.md 5/C11",
    technique="property testing over an exhaustive (N, M) grid with seeded values; oracle = row-major index relation, round trip, pointer identity and write-through",
@@ -66,7 +66,7 @@ CHECKS.update({
    note="faster-hex picks its SIMD path by run-time CPU detection; other paths are not exercised."),
  "C15": dict(engine="E1", cat="exploration", ref="DESIGN.md 5/C15",
    technique="property testing over a grid of (conversion, N, source length, spare capacity, element kind) with a recording global allocator for block identity and small-stack child processes for multi-MiB constructions",
-   text="13.6k cases per build profile: 14 conversions (boxed collects also from scripted iterators with unknown, loose and counting-down size hints) x 15 lengths (to 65536) x source lengths {0,N-1,N,N+1} x spare capacity; contents and identities vs the source, Ok iff length N, rejected sources dropped, O(1) conversions keep the block (pointer + allocator log), and five boxed constructors build 4/16 MiB byte arrays and 31/32-element arrays of 16 KiB elements on a 256 KiB stack.",
+   text="13.6k cases per build profile: 14 conversions (boxed collects also from scripted iterators with unknown, loose and counting-down size hints) x 15 lengths (to 65536) x source lengths {0,N-1,N,N+1} x spare capacity; contents and identities vs the source, Ok iff length N, rejected sources dropped, O(1) conversions keep the block (pointer + allocator log), and five boxed constructors plus the expression-length box_arr! form build 4/16 MiB byte arrays and 31/32-element arrays of 16 KiB elements on a 256 KiB stack.",
    note="A stack round trip the optimiser removes entirely would not be seen (children built at opt-level 1)."),
  "C16": dict(engine="E1", cat="fault_enumeration", ref="DESIGN.md 5/C16",
    technique="recording global allocator + enumerated fault injection: a panic at every caller-code invocation (in-process) and an allocation failure at every allocation (child process) for each alloc-feature operation instance",
@@ -78,15 +78,15 @@ CHECKS.update({
    note="A source reporting 'nothing left' while holding elements is outside the claim and not generated."),
  "C18": dict(engine="E2", cat="exploration", ref="DESIGN.md 5/C18",
    technique="generated const items: the compiler's const evaluator as UB oracle, python-computed expected checksums asserted inside the items, run-time re-evaluation of the same const fn, and separately compiled must-reject items",
-   text="2.8k const items, each compiled against the crate built in the dev and in the release profile: 21 templates covering every const fn x 14 lengths x slice lengths 0..=3N+2 x 4 element types x shared/mutable with writes through results; each value asserted against a natively computed checksum at compile time and compared with the run-time evaluation; 140 reject items must fail with E0080 in both profiles; arr! element expressions also mention caller items under ~50 plausible names (macro hygiene).",
+   text="2.8k const items, each compiled against the crate built in the dev and in the release profile: 21 templates covering every const fn x 14 lengths x slice lengths 0..=3N+2 x 4 element types x shared/mutable with writes through results; each value asserted against a natively computed checksum at compile time and compared with the run-time evaluation; 140 reject items must fail with E0080 in both profiles; arr! element expressions also mention caller items under ~50 plausible names (macro hygiene); offset_from of every chunk part is asserted inside the const evaluator; 2^19/2^20-element const arrays with the long_running_const_eval lint kept visible.",
    note="The const evaluator checks only the instantiations the generated items contain."),
  "C19": dict(engine="E1+E2", cat="exploration", ref="DESIGN.md 5/C19",
    technique="property testing over every storage shape N in 0..=64 (+8 boundary lengths) x 12 element types with seeded prior contents; oracle = per-element comparison with the zeroized value / T::DEFAULT, at run time and in generated const items",
-   text="11.7k run-time cases per build profile and 558 const items over 93 lengths up to 12000 (element sizes 1, 2, 3, 4, 8, 16, 24 bytes incl. multi-word structs and nested arrays; thorough tier: Miri replay on the host and on a 32-bit target): zeroize() leaves every element at its zeroized value (incl. types whose zeroized value is not all-zero bytes), const_default()/DEFAULT have every element equal to T::DEFAULT for types whose default is distinguishable from zero, equal Default::default(), at compile time and run time.",
+   text="11.7k run-time cases per build profile and 558 const items over 93 lengths up to 12000 (element sizes 1, 2, 3, 4, 8, 16, 24 bytes incl. multi-word structs and nested arrays, one-byte types whose zeroized byte is not 0x00, a type whose zeroize keeps an id field and counts its calls; thorough tier: Miri replay on the host and on a 32-bit target): zeroize() leaves every element as zeroizing that element alone leaves it (incl. types whose zeroized value is not all-zero bytes or differs per element), const_default()/DEFAULT have every element equal to T::DEFAULT for types whose default is distinguishable from zero, equal Default::default(), at compile time and run time.",
    note="An odd node using one child twice is indistinguishable by value (harmless by construction)."),
  "C20": dict(engine="E2", cat="exploration", ref="DESIGN.md 5/C20",
    technique="generated macro invocations with logging element expressions; oracle = native array literal, explicit type annotation and evaluation log",
-   text="283 generated invocation groups, compiled against the crate built in the dev and in the release profile: list form for every count 0..=64,100,128,255,256 (trailing comma variants, String elements, const position), both repeat forms over 20 lengths in const and let position with pure/logging/impure expressions, list forms moving non-Copy locals, repeat lengths given as type-level expressions, element expressions with observable temporaries (values and evaluation/drop log vs the native literal), elements needing expected-type coercion, element expressions mentioning caller items under ~60 plausible names (macro hygiene), and box_arr! with the same arguments.",
+   text="283 generated invocation groups, compiled against the crate built in the dev and in the release profile: list form for every count 0..=64,100,128,255,256 (trailing comma variants, String elements, const position), both repeat forms over 20 lengths in const and let position with pure/logging/impure expressions, list forms moving non-Copy locals, repeat lengths given as type-level expressions or naming a const parameter / associated constant of the enclosing item, element expressions with observable temporaries (values and evaluation/drop log vs the native literal), elements needing expected-type coercion, element expressions mentioning caller items under ~60 plausible names (macro hygiene), and box_arr! with the same arguments.",
    note="Only the documented syntactic forms are generated."),
 })
 
